@@ -463,52 +463,40 @@ class E5:
                     continue
                 n += 1
                 pid = p["id"]
-                rej = self._first_rejection(f, pid)
+                rej = self._first_rejection(f, pid) or []
                 problems = []
-                if not rej:
-                    problems.append("no rejecting `if (...) return ...;` precedes the first use")
+                # semantic decision: the function's leading statements are interpreted for every value of the parameter (the other
+                # arguments valid: calls that do not involve the parameter answer 'fine'); the function must return an error value
+                # exactly for the out-of-range values, before it reaches its working part (the first statement the interpreter has
+                # no model for, e.g. the construction of the clipper object)
+                if role[0] == "precision":
+                    M = self.max_prec
+                    dom = list(range(-M - 3, M + 4)) + [-1000, 1000, -(2 ** 31), 2 ** 31 - 1]
+                    want = lambda v: v < -M or v > M
                 else:
-                    # semantic evaluation of the disjunction of all rejecting conditions
-                    if role[0] == "precision":
-                        M = self.max_prec
-                        dom = list(range(-M - 3, M + 4)) + [-1000, 1000, -(2 ** 31), 2 ** 31 - 1]
-                        want = lambda v: v < -M or v > M
-                    else:
-                        vals = self.db.enum(role[0])
-                        dom = list(range(0, 256))
-                        want = lambda v, k=len(vals): v >= k
-                    other = [q.get("name") for q in f.params if q is not p]
-                    for v in dom:
-                        got = False
-                        for s, cond, then in rej:
-                            env = {pname: v}
-                            # other parameters that may appear in the same condition (e.g. `|| !paths`): assume valid
-                            for o in other:
-                                env.setdefault(o, 1)
-                            try:
-                                if Interp(self.db, env).ev(cond):
-                                    got = True
-                            except Unsupported as e:
-                                raise AnalysisBroken("cannot evaluate validation condition %s in %s: %s" % (canon(cond), f.qual, e))
-                        if got != want(v):
-                            problems.append("value %d is %s but must be %s" % (v, "rejected" if got else "accepted",
-                                                                              "rejected" if want(v) else "accepted"))
+                    vals = self.db.enum(role[0])
+                    dom = list(range(0, 256))
+                    want = lambda v, k=len(vals): v >= k
+                ret_t = f.sig.split("(")[0].strip()
+                any_reject = False
+                for v in dom:
+                    rejected, rv = self._leading_outcome(f, pname, v)
+                    if rejected:
+                        any_reject = True
+                        if ret_t == "int":
+                            if not isinstance(rv, int) or isinstance(rv, bool) or rv >= 0:
+                                problems.append("value %d is rejected with %r, not a negative error code" % (v, rv))
+                                break
+                        elif rv not in (None, 0) and not (hasattr(rv, "name") and False):
+                            problems.append("value %d is rejected with %r, not a null result" % (v, rv))
                             break
-                    for s, cond, then in rej:
-                        rv = self._ret_value(then)
-                        ret_t = f.sig.split("(")[0].strip()
-                        if rv is None:
-                            problems.append("rejection branch does not return a value")
-                        elif ret_t == "int":
-                            try:
-                                val = Interp(self.db, {}).ev(rv)
-                            except Unsupported:
-                                val = None
-                            if not isinstance(val, int) or val >= 0:
-                                problems.append("rejection returns %s, not a negative value" % canon(rv))
-                        else:
-                            if rv.get("kind") not in ("CXXNullPtrLiteralExpr", "GNUNullExpr") and canon(rv) not in ("nullptr", "0"):
-                                problems.append("rejection returns %s, not a null result" % canon(rv))
+                    if rejected != want(v):
+                        problems.append("value %d is %s but must be %s" % (v, "rejected" if rejected else "accepted",
+                                                                          "rejected" if want(v) else "accepted"))
+                        break
+                if not any_reject and not problems:
+                    problems.append("no value of the parameter is rejected before the function starts working")
+                if True:
                     # the enum the value is later cast to must be the one validated against
                     if role[0] != "precision":
                         casts = [x for x in walk(f.body) if x.get("kind") in ("CXXFunctionalCastExpr", "CStyleCastExpr", "CXXStaticCastExpr")
@@ -524,6 +512,38 @@ class E5:
                                        "exported function does not reject exactly the out-of-range values of '%s': %s"
                                        % (pname, "; ".join(problems[:3])), f.where, cfg=self.cfg)
         return n
+
+    def _leading_outcome(self, f, pname, v):
+        """(rejected, returned value) of f's leading statements when parameter pname == v and everything else is valid."""
+        from ..evalx import _Return, _Break, _Continue
+        tainted = {pname}
+
+        def mentions(node):
+            return any(y.get("kind") == "DeclRefExpr" and y.get("referencedDecl", {}).get("name") in tainted for y in walk(node))
+
+        def hook(name, argv, nd):
+            if not mentions(nd):
+                return 0                  # a test of the other arguments: they are valid
+            return NotImplemented
+        env = {q.get("name"): 1 for q in f.params if q.get("name") and q.get("name") != pname}
+        env[pname] = v
+        it = Interp(self.db, env, call_hook=hook)
+        for s in kids(f.body):
+            if not isinstance(s, dict) or not s.get("kind"):
+                continue
+            if s.get("kind") == "DeclStmt":
+                for d in kids(s):
+                    if d.get("kind") == "VarDecl" and mentions(d):
+                        tainted.add(d.get("name"))
+            try:
+                it.exec(s)
+            except _Return as r:
+                return True, r.v
+            except (Unsupported, _Break, _Continue, KeyError, TypeError):
+                if mentions(s) or s.get("kind") in ("DeclStmt",) and any(y.get("kind") == "CXXConstructExpr" and "Clipper" in qt(y) for y in walk(s)):
+                    return False, None    # the working part starts here
+                continue                  # a statement about other things that the interpreter has no model for
+        return False, None
 
     # -- R6 ---------------------------------------------------------------------
     def rule_r6(self, mod):
